@@ -71,3 +71,16 @@ pub fn get_bishop_moves_index(square: Square, blockers: BitBoard) -> usize {
 }
 
 pub const SLIDING_MOVE_TABLE_SIZE: usize = INDEX_DATA.table_size;
+
+/// Verification hook: the index parameters of a square
+/// as `(mask, 0, offset, 0)`.
+#[cfg(cozy_chess_verif)]
+pub fn verif_index_entry(rook: bool, square: Square) -> (u64, u64, u32, usize) {
+    let data = if rook {
+        &INDEX_DATA.rook_data
+    } else {
+        &INDEX_DATA.bishop_data
+    };
+    let entry = &data[square as usize];
+    (entry.mask.0, 0, entry.offset, 0)
+}
